@@ -325,3 +325,4 @@ _add6("C11", "Round 12: the session's permits are given back before the state th
 _add6("C16", "Round 12: every successful path through Session.Mail that does not start the delivery assigns the remembered reply (R16); SMTPError.Temporary is computed from the basic code, never from the enhanced code (R17).", ref=", §R.21")
 _add6("C02", "Round 12: every way out of tryDelivery passes the removal of the message from the spool or the scheduling of the next attempt (R16).", ref=", §R.21")
 _add6("C01", "Round 12: every way out of tryDelivery passes the removal of the message from the spool or the scheduling of the next attempt (C02.R16 as R15).", ref=", §R.21")
+_add6("C18", "Round 12: every successful return of dsn.RecipientInfo.WriteTo has passed the addition of Final-Recipient, Action and Status (R19).", ref=", §R.21")
